@@ -39,7 +39,9 @@ def factor_axioms():
 
 
 def n_Factor(eng, args, kw, n, st):
-    """Factor(expr, eval_method=...) modulo Factor.__eq__"""
+    """Factor(expr, eval_method=...) modulo Factor.__eq__ (equality and hash are by expression only: the other fields do not take part)"""
+    if set(kw) - {"eval_method", "kind", "metadata", "token"}:
+        raise OutOfSubset(n, "Factor(...) with an unknown option")
     eng.uses_axioms(factor_axioms)
     return V(FACTOR, MKF(args[0].t))
 
